@@ -120,6 +120,7 @@ pub fn build_module_x(body: &[J], arity: u64, nlocals: u32, imports_only: bool) 
     let mut types = TypeSection::new();
     types.ty().function(vec![], vec![]); // 0
     types.ty().function(vec![], vec![ValType::I32]); // 1
+    types.ty().function(vec![], vec![ValType::I32, ValType::I32]); // 2
     m.section(&types);
     let mut imps = ImportSection::new();
     for k in 0..N_OP {
@@ -132,12 +133,12 @@ pub fn build_module_x(body: &[J], arity: u64, nlocals: u32, imports_only: bool) 
         imps.import("env", &format!("probe{}", k), EntityType::Function(0));
     }
     if imports_only {
-        imps.import("env", "self", EntityType::Function(if arity == 0 { 0 } else { 1 }));
+        imps.import("env", "self", EntityType::Function(arity.min(2) as u32));
     }
     m.section(&imps);
     if !imports_only {
         let mut funcs = FunctionSection::new();
-        funcs.function(if arity == 0 { 0 } else { 1 });
+        funcs.function(arity.min(2) as u32);
         m.section(&funcs);
     }
     // tag 0 (no parameters) for `throw`
@@ -558,7 +559,7 @@ pub fn run_case(case: &J, enc2: bool) -> CaseOut {
             use wirm::module_builder::AddLocal;
             use wirm::ir::types::DataType;
             let r = guarded(|| {
-                let res: Vec<DataType> = if arity == 0 { vec![] } else { vec![DataType::I32] };
+                let res: Vec<DataType> = (0..arity).map(|_| DataType::I32).collect();
                 let mut fb = FunctionBuilder::new(&[], &res);
                 for _ in 0..nlocals {
                     fb.add_local(DataType::I32);
